@@ -108,8 +108,10 @@ def judge(c, rec):
         rec.violation(key + "/too-few-predictions", c, "%d / %d days predicted" % (n1, n2))
     split_tag = "/split-selected" if "__" in str(getattr(m, "best_combination", "")) else ""
 
+    exact_tag = "/noise-free" if (c["noise"] == 0 and fam == "daily_legacy") else ""
+
     def band(e):
-        return ("5-40%" if e <= 0.40 else ">40%") + split_tag
+        return ("5-40%" if e <= 0.40 else ">40%") + split_tag + exact_tag
 
     if not (e1 <= 0.05):
         rec.violation(key + "/baseline-nrmse-" + band(e1), c, "NRMSE on the baseline year %.4f of mean usage (limit 0.05); selected %s" % (e1, getattr(m, "best_combination", "?")))
